@@ -11,6 +11,10 @@ _m(
     "in [0,h)x[0,w) (identical images | integers | reals with fractional parts incl. 0.5, 0.49, 0.01, 0.99; one axis may stay "
     "integer) and, for numpy, fft_input x return_shifted_image x fft_output x max_shift (None | |s_centred| + {2.5,4,16,1000}; "
     "for integer shifts also + {0.25,0.5,1,1.5}).  "
+    "INPUT DTYPE dimension: in ~1/3 of the cases the two images are integer-valued counts stored as uint8 / uint16 / int16 / int32 / "
+    "int64 (amplitude 100 on pedestal 128; 20000 on 30000; +-10000; +-1e6; +-1e6), handed to every estimator/input kind (numpy "
+    "arrays, torch integer tensors viewing the same memory, FFTs of the integer arrays): exact clause = integer image and its "
+    "np.roll; sub-pixel clause = the float field is translated first and both images are then rounded (class labels in_dtype:*).  "
     "HISTORY dimension: in ~40% of the cases the input arrays are built once (real-space images and, for Fourier-space input, "
     "their FFTs; float64 torch tensors are views of the same numpy memory) and 1-2 further registrations run on the SAME array "
     "objects with independently drawn settings (estimator numpy/torch as the input kind allows, upsample_factor, "
@@ -31,6 +35,17 @@ _m(
         "consistency and the centred-cell range are asserted.  Measured maxima inside the domain over 245 000 cases: "
         "upsampled stage 0.05/up (both estimators); coarse-only stage 0.06 px numpy, 0.28 px torch (bounded by 0.25 + 0.15 "
         "by construction: half-pixel rounding plus guard (a))",
+        "integer-dtype images, sub-pixel clause: rounding the two images moves the correlation peak; the harness locates the peak of "
+        "the rounded pair itself (float64 Newton iteration on the exact Fourier series of their cross-correlation, R.true_peak) and "
+        "adds that displacement (<= 0.02 px or the case is outside the domain; typically 1e-6..1e-2 px) to the shift tolerance; "
+        "guard (a) is evaluated on the rounded pair.  The aligned image is compared with the harness's translation of the rounded "
+        "image with the Nyquist lines removed (a non-integer translation is not unique there and rounding noise lives there), and "
+        "with the reference up to the translated rounding noise, computed exactly.  The returned dtype is not asserted, the value is",
+        "cross_correlation_shift_torch promotes integer tensors to float32: judged with the float32 tolerances; with unsigned "
+        "(pedestal) data it is only run with up <= 8 (measured on the pinned tree for exact integer shifts: 1.2 upsampled px error at "
+        "up=64, 0.6 at 32, 0.07 at 16, 0.023 at 8 - float32 rounding of the correlation under a pedestal, as for float32 images)",
+        "float16 / bfloat16 are outside the domain: torch.fft rejects both on CPU (NotImplementedError) on the pinned tree; numpy "
+        "float16 is accepted but computed in complex64 and is not examined",
         "float32 torch inputs carry no pedestal (a pedestal of 2 on unit contrast costs ~2 upsampled px at up=64 in float32: "
         "rounding, not a convention error)",
         "max_shift: for sub-pixel shifts the disc edge stays >= 2.5 px beyond the true shift (closer, the pixel nearest to "
